@@ -11,6 +11,7 @@ LEVEL_NOTE = ("Not decided: nothing of substance is declined (the property is st
               "(unknown consumers of may-cancel results are rejected), `?` propagates errors unchanged except for From conversions "
               "(From<CancellationError> wraps into ExecutionError::Cancelled, From<ExecutionError> for itself is the identity).")
 LEVEL_TEXT += (' A closure that may return Cancelled is run only by consumers that keep its errors (map + collect::<Result>, try_for_each, audited local functions), never by flat_map / filter_map / last / for_each; Result::map and and_then in a chain are accepted because they act on the Ok value only.')
+LEVEL_TEXT += (" (E6.v) the variant of a deferred value is read only by LazyValue::evaluate, after its poll (and by Clone/Debug/Display): no fast path can handle a deferred value without the poll.")
 LEVEL_TEXT += (' Every InContext built by with_context sits on an edge that has already excluded Cancelled (no wrapping arm can shadow the Cancelled arm).')
 
 RULES = {
@@ -27,6 +28,8 @@ def run(prog, rep):
     found, total = e2.run_e2p(prog, rep)
     rep.floor("E2.p", found, 9, "poll obligations")
     rep.floor("E2.p", total, 9, "poll sites (calls of CancellationFlag::check)")
+    nv = e2.lazy_value_encapsulated(prog, rep)
+    rep.floor("E6.v", nv, 2, "readers of LazyValue's variant")
     n_polls, n_sites, canc = e2.run_e2c(prog, rep)
     rep.floor("E2.c", n_sites, 100, "may-cancel call sites")
     rep.extra["may_cancel_functions"] = len(canc)
